@@ -173,7 +173,41 @@ class U4(Universe):
         return o
 
 
-UNIVERSES = [(U1, 4, 6), (U2, 3, 4), (U3, 3, 4), (U4, 3, 5)]
+class U5(Universe):
+    """the same data names in a block, its frame and a second block: what one container stores must not depend on the others"""
+    name = 'U5-shared-names'
+
+    def setup(self):
+        return [CifNew(0), BlkCreate(0, 'b', 'H0'), FrmCreate('H0', 's', 'H1'), BlkCreate(0, 'c', 'H2'),
+                LoopCreate('H0', None, ('_a', '_b'), 'L0'), LoopAddPkt('L0', (('_a', 'V1'), ('_b', 'V2'))),
+                LoopCreate('H1', None, ('_a', '_b'), 'L1'), LoopCreate('H2', 'x', ('_a', '_b'), 'L2')]
+
+    def ops(self, m):
+        o = []
+        for l in ['L0', 'L1', 'L2']:
+            if l in m.L and m.l_live(l):
+                for pkt in [(('_a', 'V3'),), (('_b', 'V1'),), (('_a', 'V2'), ('_b', 'NA'))]:
+                    o.append(LoopAddPkt(l, pkt))
+                o.append(LoopInfo(l))
+                n = len(m.L[l][2].packets)
+                for k in range(min(n, 2)):
+                    o.append(IterEdit(l, k, 'remove', (), 'close'))
+                    o.append(IterEdit(l, k, 'update', (('_b', 'V3'),), 'close'))
+                o.append(LoopAddItem(l, '_c', 'V1'))
+            elif l in m.L:
+                o.append(StaleLoopCall(l, 'addpkt'))
+        for h in ['H0', 'H1', 'H2']:
+            if m.h_live(h):
+                for name in ['_a', '_b']:
+                    o.append(ItemGet(h, name))
+                    o.append(ItemRemove(h, name))
+                o.append(ItemSet(h, '_a', 'V3'))
+                o.append(ContPrune(h))
+        o.append(ParseInto(0, 'items'))
+        return o
+
+
+UNIVERSES = [(U1, 4, 6), (U2, 3, 4), (U3, 3, 4), (U4, 3, 5), (U5, 3, 4)]
 
 
 def main():
@@ -192,7 +226,7 @@ def main():
             continue
         d = dq if tier == 'quick' else dt
         if override:
-            d = override[ui]
+            d = override[ui] if ui < len(override) else override[-1]
         st = bfs(u, d, rep, dl)
         per[u.name] = {'states': st['states'], 'transitions': st['transitions'], 'depth_bound': d,
                        'depth_completed': st['depth_completed'], 'exhaustive_to_bound': st['exhaustive'] and st['depth_completed'] == d or st['frontier_left'] == 0}
